@@ -134,8 +134,11 @@ theorem newInstance_no_leak :
 
 /-- an instance that was created is closed when its `Run` returns (first instance and later ones) -/
 theorem runNewInstance_outcomes :
-    runNewInstance.map (fun p => (p.failed, p.has (.dfr "Close"), (p.after (.dfr "Close")).contains (.call "Run"))) =
-      [(some "newInstance", false, false), (none, true, true)] := by decide
+    runNewInstance.map (fun p => (p.failed,
+      -- `defer instance.Close()` before `Run`, or (Run recovers every panic itself) a plain `Close()` after it
+      (p.has (.dfr "Close") && (p.after (.dfr "Close")).contains (.call "Run")) ||
+      (p.after (.call "Run")).contains (.call "Close"))) =
+      [(some "newInstance", false), (none, true)] := by decide
 
 def goEvents (p : Path) : List String := p.filterMap fun e => match e with | .go t => some t | _ => none
 def callEvents (p : Path) : List String := p.filterMap fun e => match e with | .call t => some t | _ => none
